@@ -266,7 +266,11 @@ func RAOpts(r *rand.Rand, mac refdec.MAC) []refdec.NDPOpt {
 	}
 	if r.Intn(2) == 0 {
 		x := refdec.RDNSS{Lifetime: r.Uint32()}
-		for i := 1 + r.Intn(3); i > 0; i-- {
+		n := 1 + r.Intn(3)
+		if r.Intn(6) == 0 {
+			n = 15 + r.Intn(10) // 16 servers and more make an option of 256 bytes and more (length field >= 32 units)
+		}
+		for i := n; i > 0; i-- {
 			var a [16]byte
 			r.Read(a[:])
 			a[0] = 0x20
@@ -291,7 +295,11 @@ func RAOpts(r *rand.Rand, mac refdec.MAC) []refdec.NDPOpt {
 		o = append(o, refdec.OptRouteInfo(refdec.RouteInfo{Len: pl, Pref: pick(r, uint8(0), uint8(1), uint8(3)), Lifetime: r.Uint32(), Prefix: netip.AddrFrom16(a)}))
 	}
 	if r.Intn(4) == 0 {
-		o = append(o, refdec.NDPOpt{Type: pick(r, byte(14), byte(38), byte(200)), Len: -1, Body: RandBytes(r, 6+8*r.Intn(3))})
+		k := r.Intn(3)
+		if r.Intn(4) == 0 {
+			k = 28 + r.Intn(30) // long unknown option around and beyond the 256 byte mark
+		}
+		o = append(o, refdec.NDPOpt{Type: pick(r, byte(14), byte(38), byte(200)), Len: -1, Body: RandBytes(r, 6+8*k)})
 	}
 	r.Shuffle(len(o), func(i, j int) { o[i], o[j] = o[j], o[i] })
 	return o
